@@ -1,11 +1,11 @@
 SPECIFICATION Spec
 CONSTANTS
   B = 4
-  Conns = {0, 1}
+  Conns = {0, 1, 2}
   Versions = {20}
   ObjUuids = {101, 102}
   SvcUuids = {201}
-  Events = {0}
+  Events = {0, 1}
   Fns = {0}
   CSerials = {0}
   Payloads = {1}
@@ -13,11 +13,11 @@ CONSTANTS
   Caps <- CapsOne
   MaxCookie = 3
   InqBound = 1
-  Kinds = {"CreateObject", "DestroyObject", "CreateService", "AddBusListenerFilter", "RemoveBusListenerFilter", "ClearBusListenerFilters", "StartBusListener", "StopBusListener", "DestroyBusListener"}
-  Faults = {"ends"}
+  Kinds = {"SubscribeEvent", "UnsubscribeEvent", "EmitEvent", "SubscribeService", "UnsubscribeService", "SubscribeAllEvents", "UnsubscribeAllEvents", "DestroyService"}
+  Faults = {"ends", "dropped"}
   WrongKinds = {}
-  MsgBudget = 3
-  ScriptSel = "lst"
+  MsgBudget = 4
+  ScriptSel = "svc"
   V0 = 20
   V1 = 20
 VIEW view
